@@ -59,11 +59,58 @@ func scopeRoot(scope string) string {
 	return scope
 }
 
+// isNegativeIntegerLiteral: -2, -02 (but not -2.0, -(2), 0 - 2 or a reference)
+func isNegativeIntegerLiteral(n *node) bool {
+	return n.k == kNeg && !n.paren && n.args[0].k == kNum && !n.args[0].paren && !strings.Contains(n.args[0].lit, ".")
+}
+
 // classifySpelling runs the repair experiments that change only how something is *spelled*: number
 // literals written canonically, an index counted from the front instead of from the end, a drawn
 // result / field / key name replaced by a neutral one bound to the same operand.
 func (ck *checker) classifySpelling(root *node, so outcome, passes func(*node) bool, w map[string]any) (classification, bool) {
 	size := root.size()
+
+	// (b) an index counted from the end: WORD(s, -k), WORD_SLICE(s, -k), WORD_SLICE(s, i, -k)
+	for i := 0; i < size; i++ {
+		n, _, _ := nth(root, i)
+		if n.k != kCall || (n.fn != "WORD" && n.fn != "WORD_SLICE") || len(n.args) < 2 {
+			continue
+		}
+		tv, ok := ck.ref.eval(n.args[0])
+		if !ok || tv.t != tT {
+			continue
+		}
+		ws, ok := words(tv.s)
+		if !ok {
+			continue
+		}
+		variant := root.clone()
+		vn, _, _ := nth(variant, i)
+		fromEnd, literal := false, true
+		for ai := 1; ai < len(n.args) && ai <= 2; ai++ {
+			if n.fn == "WORD" && ai > 1 {
+				break
+			}
+			iv, ok := ck.ref.eval(n.args[ai])
+			if !ok || iv.t != tN {
+				continue
+			}
+			if idx, ok := iv.intIn(-int64(len(ws)), -1); ok {
+				vn.args[ai] = intLit(len(ws) + 1 + idx)
+				fromEnd = true
+				literal = literal && isNegativeIntegerLiteral(n.args[ai])
+			}
+		}
+		if fromEnd && passes(variant) {
+			w["repair"] = "counting from the front instead of from the end makes the migration correct: " + printer{spaced: true}.print(variant)
+			kind := "negative-index"
+			if !literal {
+				kind = "negative-index-nonliteral" // the number is only known when the template is evaluated
+			}
+			return classification{"index-shift|" + kind + "|call:" + strings.ToLower(n.fn),
+				"a negative word number counts from the end (legacy -1 = last word, as word(s, -1) in the new syntax), but the migration decrements it like a 1-based index: " + so.source + " → " + so.migrated + "; " + so.detail, w}, true
+		}
+	}
 
 	// (a) number literals
 	canon := root.clone()
@@ -96,43 +143,6 @@ func (ck *checker) classifySpelling(root *node, so outcome, passes func(*node) b
 		w["repair"] = "writing the number literals canonically (no leading zeros, no trailing fractional zeros) makes the migration correct: " + printer{spaced: true}.print(canon)
 		return classification{"literal-form|number-" + form + "|" + where,
 			"a legacy number literal is always decimal, however it is padded, but the migration gives it another value: " + so.source + " → " + so.migrated + "; " + so.detail, w}, true
-	}
-
-	// (b) an index counted from the end: WORD(s, -k), WORD_SLICE(s, -k), WORD_SLICE(s, i, -k)
-	for i := 0; i < size; i++ {
-		n, _, _ := nth(root, i)
-		if n.k != kCall || (n.fn != "WORD" && n.fn != "WORD_SLICE") || len(n.args) < 2 {
-			continue
-		}
-		tv, ok := ck.ref.eval(n.args[0])
-		if !ok || tv.t != tT {
-			continue
-		}
-		ws, ok := words(tv.s)
-		if !ok {
-			continue
-		}
-		variant := root.clone()
-		vn, _, _ := nth(variant, i)
-		fromEnd := false
-		for ai := 1; ai < len(n.args) && ai <= 2; ai++ {
-			if n.fn == "WORD" && ai > 1 {
-				break
-			}
-			iv, ok := ck.ref.eval(n.args[ai])
-			if !ok || iv.t != tN {
-				continue
-			}
-			if idx, ok := iv.intIn(-int64(len(ws)), -1); ok {
-				vn.args[ai] = intLit(len(ws) + 1 + idx)
-				fromEnd = true
-			}
-		}
-		if fromEnd && passes(variant) {
-			w["repair"] = "counting from the front instead of from the end makes the migration correct: " + printer{spaced: true}.print(variant)
-			return classification{"index-shift|negative-index|call:" + strings.ToLower(n.fn),
-				"a negative word number counts from the end (legacy -1 = last word, as word(s, -1) in the new syntax), but the migration decrements it like a 1-based index: " + so.source + " → " + so.migrated + "; " + so.detail, w}, true
-		}
 	}
 
 	// (c) drawn names: all at once, then one at a time to find which one matters
